@@ -220,7 +220,9 @@ class MQTTClient(MQTTTransport):
             raise RuntimeError("Client needs to connect before disconnecting.")
 
         self._incoming_task.cancel()
-        await self._incoming_task
+        # The task ends by cancellation if it's still waiting for messages.
+        with contextlib.suppress(asyncio.CancelledError):
+            await self._incoming_task
         self._incoming_task = None
         with contextlib.suppress(MqttError):
             await self._client.__aexit__(None, None, None)
